@@ -171,7 +171,7 @@ def build_cases(tier, seed):
         prof = dict(PROFILE)
         prof["network"] = ["euclidean", "grid", "euclidean", "denver"][i % 4]
         ctrl = BUILTIN if i % 2 == 0 else hostile_stack(p=0.3, builtin=True)
-        cases.append(trace_case("C08", i, s, prof, ctrl, steps, ["C08"]))
+        cases.append(trace_case("C08", i, s, prof, ctrl, steps, ["C08"], opts=({"inject_requests": {"every": 4, "public": False}, "cosim_ops": {"every": 6, "kinds": ["add_vehicle", "append_plugs"]}} if i % 3 == 1 else {})))
     if tier == "thorough":
         for w in ("denver_downtown/denver_demo.yaml", "denver_downtown/denver_demo_fleets.yaml", "manhattan/manhattan.yaml"):
             cases.append(shipped_case("C08", w, 300 if "manh" not in w else 100, ["C08"], tag="b"))
